@@ -30,7 +30,8 @@ def expected(prog, kind, part_id, m, fields, fail, sender, amount, height, seed)
     attrs += [("height", str(height)), ("addr", ADDR), ("seed", seed)]
     if kind == "query":
         return "ok " + corpus.jtext({"attrs": [[k, v] for k, v in attrs]})
-    return "ok " + "|".join("%s=%s" % kv for kv in attrs) + " msgs=0 events=0 data=- stored=" + hid
+    data = ("m:" + hid).encode().hex() if kind == "migrate" else "-"
+    return "ok " + "|".join("%s=%s" % kv for kv in attrs) + " msgs=0 events=0 data=" + data + " stored=" + hid
 
 
 def run(ctx):
